@@ -355,7 +355,7 @@ func FormatEmail(s string) Tri {
 	return Unknown
 }
 
-var reURIYes = regexp.MustCompile(`^[a-z][a-z0-9]*://[A-Za-z0-9]+([.-][A-Za-z0-9]+)*(:\d{1,4})?(/[A-Za-z0-9._~-]*)*(\?[A-Za-z0-9=&._~-]*)?$`)
+var reURIYes = regexp.MustCompile(`^[a-z][a-z0-9]*://[A-Za-z0-9]+([.-][A-Za-z0-9]+)*(:\d{1,4})?(/[A-Za-z0-9._~-]*)*(\?[A-Za-z0-9=&._~-]*)?(#[A-Za-z0-9._~-]*)?$`)
 
 var reURIAuthority = regexp.MustCompile(`^[a-z][a-z0-9]*://([^/?#]*)`)
 var reURIPortOnly = regexp.MustCompile(`^(:[0-9]*)?$`)
@@ -367,9 +367,15 @@ func FormatURI(s string) Tri {
 	if s == "" || !strings.Contains(s, ":") || strings.HasPrefix(s, "/") || strings.HasSuffix(s, "://") {
 		return No // empty, no scheme, relative reference, scheme without host
 	}
+	if strings.ContainsAny(s, " \"<>\\^`{|}") || strings.Count(s, "#") > 1 {
+		return No // characters RFC 3986 allows nowhere in a URI; '#' only starts the fragment
+	}
 	if m := reURIAuthority.FindStringSubmatch(s); m != nil {
 		// scheme://authority...: an authority that is only user info and/or a port names no host
 		auth := m[1]
+		if strings.Count(auth, "@") > 1 {
+			return No // '@' ends the user info, inside it has to be percent-encoded
+		}
 		if i := strings.LastIndexByte(auth, '@'); i >= 0 {
 			auth = auth[i+1:]
 		}
